@@ -19,7 +19,7 @@ namespace Hms.Conc
 inductive CallRes (V : Type) where
   | ret (v : Option V)                       -- falls off its end / `return`; `some v` is pushed
   | fail (i : Intr) (kind msg : String)      -- fatal exception (incl. uncaught throw), exit
-  deriving Repr
+  deriving Repr, DecidableEq
 
 structure BodyOut (V G : Type) where
   globals : G
@@ -44,7 +44,7 @@ structure Prog (V G : Type) where
 structure CoreObs (V : Type) where
   stack : List V
   frames : Nat
-  deriving Repr
+  deriving Repr, DecidableEq
 
 structure VMState (V G : Type) where
   proto : PState
@@ -56,7 +56,7 @@ inductive Result (V : Type) where
   | exc (core : Nat) (i : Intr) (kind msg : String)
   | blocked
   | hostPanic (why : String)
-  deriving Repr
+  deriving Repr, DecidableEq
 
 structure Call (V : Type) where
   fn : String
@@ -114,6 +114,10 @@ def handleTermination {V G : Type} (prog : Prog V G) (fn : String) (sg : FnSig) 
     | v :: _ => if prog.typeOk fn v then .ret (some v) else .hostPanic "return type assertion failed"
   else .ret none
 
+/-- `spawnCore`, the core's run up to its signal `sg`, and the host entering `Wait`. -/
+def syncStart (cfg : Cfg) (p : PState) (sg : Sig) : PState :=
+  { p.spawn with core := upd p.spawn.core p.n (sent cfg sg), wait := .top }
+
 /-- One host invocation. Returns the new VM state, the result and the output. -/
 def invoke {V G : Type} (cfg : Cfg) (prog : Prog V G) (s : VMState V G) (c : Call V) :
     VMState V G × Result V × String :=
@@ -122,10 +126,8 @@ def invoke {V G : Type} (cfg : Cfg) (prog : Prog V G) (s : VMState V G) (c : Cal
   | some sg =>
     if c.args.length ≠ sg.params then (s, .hostPanic "illegal call: argument count", "") else
     if !s.proto.lockFree then (s, .blocked, "") else
-    let id := s.proto.n
-    let p1 := s.proto.spawn
-    let r := runCore prog p1.cancelled c.fn sg.params (prePush (invert c.args)) s.globals
-    let p2 := { p1 with core := upd p1.core id (sent cfg r.sig), wait := .top }
+    let r := runCore prog s.proto.cancelled c.fn sg.params (prePush (invert c.args)) s.globals
+    let p2 := syncStart cfg s.proto r.sig
     let p3 := waitRun cfg (waitFuel p2) p2
     let s' : VMState V G := { proto := p3, globals := r.globals, last := some r.core }
     match p3.waitResult with
@@ -149,5 +151,14 @@ def VMState.quiescent {V G : Type} (s : VMState V G) : Prop :=
 def Result.isFailure {V : Type} : Result V → Bool
   | .exc .. => true
   | _ => false
+
+def Result.isRet {V : Type} : Result V → Bool
+  | .ret _ => true
+  | _ => false
+
+/-- The result without the number of the core that raised (core numbers are a counter). -/
+def Result.anon {V : Type} : Result V → Result V
+  | .exc _ i k m => .exc 0 i k m
+  | r => r
 
 end Hms.Conc
